@@ -5,34 +5,70 @@ ID = "C13"
 LEVEL = "exploration"
 FLAVOUR = "plain"
 TIMEOUT = 600
-RULE = ("cell = filter-column kind x page version x page size (default | >= 3 pages per chunk) x codec; inside: every "
-        "2-row-group dataset over 6 row-group contents (3 rows each, nulls included) x filter programs of C05 (flat = "
-        "AND, nested = OR of ANDs) x output columns (all, without the filter column, only the payload) observed "
-        "through to_pandas(filters, row_filter=True) and count(filters, row_filter=True); plus every boolean mask of "
-        "the right length for a 6-row, 2-row-group, multi-page frame (2^6 masks) x output columns, wrong-length masks "
-        "must raise; plus hive-partitioned datasets with conditions on partition columns. Oracle: pure-Python "
-        "evaluation row by row; rows in order; every column aligned by row id; non-trivial = a filtered read whose "
-        "expected result has >= 1 row")
-ASSUMPTIONS = ["rows whose filter value is NULL/NaN are don't-care for != and not in, excluded otherwise"]
+RULE = ("F: cell = filter-column kind x page version x page size (default | one row per page) x codec; inside: every "
+        "2-row-group dataset over 6 row-group contents of 3 rows (nulls included) plus a 2-row content paired in both "
+        "orders with two of them (plain, with a null) and with itself, so row groups of unequal size "
+        "occur (thorough: every pair over 8 contents of 2, 3 and 4 rows) x filter programs of C05 (flat = AND, nested = OR "
+        "of ANDs) + programs that also condition a second data column (float without nulls, text with nulls) x "
+        "output columns (all, without the filter column, only the payload, filter column + row id) observed through "
+        "to_pandas(filters, row_filter=True), count(filters, row_filter=True), read_row_group_file(rg, columns, "
+        "row_filter=filters) for every row group (no pruning there) and the concatenation of "
+        "iter_row_groups(filters, row_filter=True) (quick: the last two on single-page chunks only - the direct read "
+        "for the second row group of every dataset and the first row group of the datasets whose second content "
+        "is the first of the list, which covers every content in both positions, the iterator on v1 pages for "
+        "the nullable-integer filter column; thorough: everywhere). M: every boolean mask of the right length x output columns for a "
+        "6-row frame in the layouts 3+3, 2+4 rows (single / one-row pages), one row group with pages of 2 and of 3 "
+        "rows, and every mask (2^12) of a 12-row frame whose dictionary-encoded column spans two data pages; "
+        "wrong-length masks must raise. I: frames with a text index column / range-index metadata with start and "
+        "step / a two-level index x page version x page size, 2+4 rows: every mask and every filter program (also "
+        "on the index column): index labels must follow the selected rows. P: hive and drill datasets with one or "
+        "two partition levels: conditions on partition columns (==, !=, <, >=, in, not in; flat and nested; mixed "
+        "with data conditions) through to_pandas and count. Oracle: pure-Python evaluation row by row; rows in "
+        "order; every column aligned by row id; returned column labels and their order, column dtypes (same as "
+        "the unfiltered read), a fresh 0..n-1 row index, count() == number of rows returned; non-trivial = a "
+        "filtered read whose expected result has >= 1 row")
+ASSUMPTIONS = ["rows whose filter value is NULL/NaN are don't-care for != and not in, excluded otherwise",
+               "to_pandas and count must agree with each other also on the don't-care rows"]
 
-CONTENTS = [(1, 2, 3), (3, 2, 1), (2, 2, 2), (1, None, 3), (None, None, None), (2, None, 2)]
+CONTENTS = [(1, 2, 3), (3, 2, 1), (2, 2, 2), (1, None, 3), (None, None, None), (2, None, 2), (2, 3), (1, None, 3, 2)]
+NCONT = {"quick": 7, "thorough": 8}
+PARTNERS = (0, 3)         # quick tier: the 2-row content meets these 3-row contents (both orders) and itself
+WHY_NOT_IN = "rg_dropped_bound_in_list"
 
 
 def points(tier):
     pts = []
-    kinds = ["int64", "str", "float64", "Int64", "cat", "dt"] if tier == "thorough" else ["int64", "str", "float64", "Int64", "cat"]
+    nc = NCONT[tier]
+    deep = tier == "thorough"
+    kinds = ["int64", "str", "float64", "Int64", "cat", "dt"] if deep else ["int64", "str", "float64", "Int64", "cat"]
     for kind in kinds:
         for ver in (1, 2):
             for tiny in (False, True):
-                for codec in ((None, "SNAPPY") if tier == "thorough" else (None,)):
-                    for first in range(len(CONTENTS)):
-                        pts.append({"m": "F", "kind": kind, "v": ver, "tiny": tiny, "codec": codec, "first": first})
+                for codec in ((None, "SNAPPY") if deep else (None,)):
+                    for first in range(nc):
+                        # the direct row-group read and the iterator sit above the page decoder: the quick tier asks
+                        # them on single-page chunks only (the iterator on v1 and for the nullable-integer filter
+                        # column only), the thorough tier everywhere
+                        pts.append({"m": "F", "kind": kind, "v": ver, "tiny": tiny, "codec": codec, "first": first,
+                                    "ncont": nc, "rg_file": 2 if deep else 0 if tiny else 1,
+                                    "iter": deep or (ver == 1 and not tiny and kind == "Int64")})
     for ver in (1, 2):
-        for tiny in (False, True):
-            for payload in ("int", "str_null", "cat"):
-                pts.append({"m": "M", "v": ver, "tiny": tiny, "payload": payload})
+        for payload in ("int", "str_null", "cat"):
+            for tiny in (False, True):
+                for lay in ("3+3", "2+4"):
+                    pts.append({"m": "M", "v": ver, "tiny": tiny, "payload": payload, "layout": lay})
+            for lay in ("6p2", "6p3"):
+                pts.append({"m": "M", "v": ver, "tiny": True, "payload": payload, "layout": lay})
+        for part in range(4):
+            pts.append({"m": "M", "v": ver, "tiny": True, "payload": "cat", "layout": "12cat", "part": part})
+    for ix in ("text", "range", "multi"):
+        for ver in (1, 2):
+            for tiny in (False, True):
+                pts.append({"m": "I", "index": ix, "v": ver, "tiny": tiny})
     for pk in ("int", "str"):
-        pts.append({"m": "P", "pkind": pk})
+        for scheme in ("hive", "drill"):
+            for levels in (1, 2):
+                pts.append({"m": "P", "pkind": pk, "scheme": scheme, "levels": levels})
     return pts
 
 
@@ -42,7 +78,7 @@ def explore(run, tier):
 
 def crash_sig(point, res):
     s = {"m": point["m"], "symptom": res["outcome"]}
-    for k in ("kind", "v", "tiny", "payload"):
+    for k in ("kind", "v", "tiny", "payload", "layout", "index", "scheme", "levels"):
         if k in point:
             s[k] = point[k]
     return s
@@ -79,21 +115,49 @@ class Acc:
                 "sig": list(self.sigs.values()) or None, "detail": self.detail}
 
 
-def check_rows(a, what, df_out, must, maybe, table, cols):
-    """df_out rows must be exactly `must` (+ optionally some of `maybe`), in order, aligned by rid"""
+def _dt(s):
+    """dtype of a column as a comparable token (categoricals: only that they are categorical, and their order flag)"""
+    import pandas as pd
+    if isinstance(s.dtype, pd.CategoricalDtype):
+        return "category ordered=%s" % bool(s.dtype.ordered)
+    return str(s.dtype)
+
+
+def ref_dtypes(frame):
+    return {str(c): _dt(frame[c]) for c in frame.columns}
+
+
+def check_rows(a, what, df_out, must, maybe, table, cols, want_cols=None, ref=None, kf=None, key=None,
+               plain_index=True):
+    """df_out rows must be exactly `must` (+ optionally some of `maybe`), in order, aligned by rid.
+
+    want_cols: the column labels the frame must carry, in order; ref: column -> dtype token of the unfiltered read;
+    kf(got_rids | None, n_rows) -> True when the discrepancy is exactly the known 'not in' pruning loss;
+    key = (column, value -> rid): a column with unique values that identifies the rows when rid is not requested
+    """
     from mc import oracles as O
+    if want_cols is not None and [str(c) for c in df_out.columns] != [str(c) for c in want_cols]:
+        a.bad("wrong_columns", "%s: columns %r returned, %r requested" % (what, [str(c) for c in df_out.columns], list(want_cols)))
+        return
+    got = None
     if "rid" in df_out.columns:
         got = O.series_to_list(df_out["rid"])
-    else:
-        got = None
+    elif key is not None and key[0] in df_out.columns:
+        try:
+            got = [key[1][v] for v in O.series_to_list(df_out[key[0]])]
+        except (KeyError, TypeError):
+            a.bad("misaligned", "%s: column %s holds %r, values no row has" % (what, key[0], O.series_to_list(df_out[key[0]])), col=key[0])
+            return
     n_lo, n_hi = len(must), len(must) + len(maybe)
     if not (n_lo <= len(df_out) <= n_hi):
-        a.bad("wrong_rows", "%s: %d rows returned, expected %d%s" % (what, len(df_out), n_lo, "" if not maybe else "..%d" % n_hi))
+        extra = {"why": WHY_NOT_IN} if kf is not None and kf(got, len(df_out)) else {}
+        a.bad("wrong_rows", "%s: %d rows returned, expected %d%s" % (what, len(df_out), n_lo, "" if not maybe else "..%d" % n_hi), **extra)
         return
     if got is not None:
         allowed = set(must) | set(maybe)
-        if any(r not in allowed for r in got) or any(r not in got for r in must):
-            a.bad("wrong_rows", "%s: rows %r returned, exactly %r qualify%s" % (what, got, must, " (+ optional %r)" % maybe if maybe else ""))
+        if any(r not in allowed for r in got) or any(r not in got for r in must) or len(set(got)) != len(got):
+            extra = {"why": WHY_NOT_IN} if kf is not None and kf(got, len(df_out)) else {}
+            a.bad("wrong_rows", "%s: rows %r returned, exactly %r qualify%s" % (what, got, must, " (+ optional %r)" % maybe if maybe else ""), **extra)
             return
         if got != sorted(got):
             a.bad("wrong_order", "%s: rows %r are not in original order" % (what, got))
@@ -117,6 +181,58 @@ def check_rows(a, what, df_out, must, maybe, table, cols):
                 if i is not None:
                     a.bad("misaligned", "%s: column %s row %d is %r, expected %r" % (what, col, i, vals[i], exp[i]), col=col)
                     return
+    if plain_index and list(df_out.index) != list(range(len(df_out))):
+        a.bad("wrong_index", "%s: the frame written without an index comes back with row labels %r" % (what, list(df_out.index)[:8]))
+        return
+    if ref is not None:
+        for col in df_out.columns:
+            if _dt(df_out[col]) != ref[str(col)]:
+                a.bad("wrong_dtype", "%s: column %s comes back as %s, the unfiltered read gives %s" % (what, col, _dt(df_out[col]), ref[str(col)]), col=str(col))
+                return
+
+
+def not_in_loss(groups, rg_x, rg_must, rg_maybe):
+    """-> kf(got, n): is the result exactly what the known unsound 'not in' pruning produces: some row groups whose
+    min or max is an element of a 'not in' list of the program are dropped whole, everything else is exact"""
+    lists = [c[2] for g in groups for c in g if c[1] == "not in" and c[0] == "x"]
+    elig = []
+    for gi, xs in rg_x.items():
+        nn = [x for x in xs if x is not None]
+        if nn and any(min(nn) in l or max(nn) in l for l in lists):
+            elig.append(gi)
+
+    def kf(got, n):
+        for k in range(1, len(elig) + 1):
+            for D in itertools.combinations(elig, k):
+                if not any(rg_must[gi] for gi in D):
+                    continue
+                if got is not None:
+                    ok = len(set(got)) == len(got)
+                    for gi in rg_x:
+                        here = set(r for r in got if r in rg_must[gi] or r in rg_maybe[gi])
+                        if gi in D:
+                            ok = ok and not here
+                        else:
+                            ok = ok and set(rg_must[gi]) <= here
+                    ok = ok and all(any(r in rg_must[gi] or r in rg_maybe[gi] for gi in rg_x) for r in got)
+                else:
+                    lo = sum(len(rg_must[gi]) for gi in rg_x if gi not in D)
+                    hi = lo + sum(len(rg_maybe[gi]) for gi in rg_x if gi not in D)
+                    ok = lo <= n <= hi
+                if ok:
+                    return True
+        return False
+    return kf if elig else None
+
+
+def extra_programs(kind):
+    """programs that condition a second data column as well (num: float, no nulls; pay: text with nulls)"""
+    from mc.props import C05
+    c = lambda v: C05.kval(kind, v)
+    return [("flat", [("x", ">=", c(2)), ("num", "<", 4.0)]),
+            ("flat", [("x", "!=", c(2)), ("pay", "==", "p1")]),
+            ("nested", [[("pay", "in", ["p1", "p4"])], [("x", ">", c(2)), ("num", "<=", 3.0)]]),
+            ("nested", [[("pay", ">", "p2"), ("x", "<=", c(2))], [("x", "==", c(3))]])]
 
 
 def run_F(p):
@@ -128,10 +244,14 @@ def run_F(p):
     from mc.props import C05
     kind, ver, tiny, codec = p["kind"], p["v"], p["tiny"], p["codec"]
     a = Acc({"m": "F", "kind": kind, "v": ver, "tiny": tiny})
-    progs = C05.filter_programs(kind, True)
+    conts = CONTENTS[:p.get("ncont", 6)]
+    progs = C05.filter_programs(kind, True) + extra_programs(kind)
     d = scratch()
-    for second in CONTENTS:
-        contents = (CONTENTS[p["first"]], second)
+    for si, second in enumerate(conts):
+        fi = p["first"]
+        if len(conts) == 7 and (fi == 6 or si == 6) and not (fi == si or fi in PARTNERS or si in PARTNERS):
+            continue
+        contents = (conts[fi], second)
         df, offs = C05.make_frame(kind, contents)
         if df is None:
             continue
@@ -147,18 +267,36 @@ def run_F(p):
             cells = [None if c is None else pd.Timestamp(c[1]) for c in cells]
         rids = list(df["rid"])
         table = {c: dict(zip(rids, O.series_to_list(df[c]))) for c in df.columns}
+        rows = [{"x": x, "pay": table["pay"][r], "num": table["num"][r]} for x, r in zip(cells, rids)]
+        key = ("num", {v: r for r, v in table["num"].items()})
+        rg_of = {r: r // 10 for r in rids}
+        rg_x = {}
+        for x, r in zip(cells, rids):
+            rg_x.setdefault(rg_of[r], []).append(x)
+        allcols = [str(c) for c in df.columns]
+        colsets = (None, ["rid", "pay"], ["num"], ["x", "rid"])
+        refs = {}
+        for cols in colsets:
+            refs[repr(cols)] = ref_dtypes(pf.to_pandas(columns=cols))
         for shape, filt in progs:
             groups = [filt] if shape == "flat" else filt
             must, maybe = [], []
-            for x, r in zip(cells, rids):
-                mm, dc = C05.row_matches(groups, {"x": x})
+            for row, r in zip(rows, rids):
+                mm, dc = C05.row_matches(groups, row)
                 if mm:
                     must.append(r)
                 elif dc:
                     maybe.append(r)
-            for cols in (None, ["rid", "pay"], ["num"], ["x", "rid"]):
-                a.ctx = {"shape": shape if len(groups) == 1 else "or", "cols": "all" if cols is None else "+".join(cols),
-                         "ops": ",".join(sorted({c[1] for g in groups for c in g}))}
+            rg_must = {gi: [r for r in must if rg_of[r] == gi] for gi in rg_x}
+            rg_maybe = {gi: [r for r in maybe if rg_of[r] == gi] for gi in rg_x}
+            kf = not_in_loss(groups, rg_x, rg_must, rg_maybe)
+            sctx = {"shape": shape if len(groups) == 1 else "or",
+                    "ops": ",".join(sorted({c[1] for g in groups for c in g}))}
+            if any(c[0] != "x" for g in groups for c in g):
+                sctx["two_columns"] = True
+            n_all = None
+            for cols in colsets:
+                a.ctx = dict(sctx, cols="all" if cols is None else "+".join(cols))
                 what = "%s v%d tiny=%s rgs=%r filter=%r cols=%r" % (kind, ver, tiny, contents, filt, cols)
                 a.evals += 1
                 if must:
@@ -173,21 +311,92 @@ def run_F(p):
                 except Exception as e:
                     a.bad("read_raised", "%s: %s: %s" % (what, type(e).__name__, str(e)[:150]), exc=type(e).__name__)
                     continue
-                check_rows(a, what, out, must, maybe, table, cols)
+                if cols is None:
+                    n_all = len(out)
+                check_rows(a, what, out, must, maybe, table, cols, want_cols=cols or allcols, ref=refs[repr(cols)],
+                           kf=kf, key=key)
+            # the same question put to every row group directly (no pruning on this path) ...
+            for cols in ((), (["rid", "pay"],), (["rid", "pay"], allcols))[p.get("rg_file", 0)]:
+                for gi, rg in enumerate(pf.row_groups):
+                    if p.get("rg_file") == 1 and gi == 0 and si != 0:
+                        continue      # a direct read does not depend on the other row group: see RULE
+                    a.ctx = dict(sctx, cols="+".join(cols) if len(cols) < 4 else "all", via="rg_file")
+                    what = "%s v%d tiny=%s rgs=%r read_row_group_file(rg %d, %r, row_filter=%r)" % (kind, ver, tiny, contents, gi, cols, filt)
+                    a.evals += 1
+                    try:
+                        out = pf.read_row_group_file(rg, list(cols), None, row_filter=filt)
+                    except TypeError as e:
+                        if not (kind == "cat" and "Unordered Categoricals" in str(e)):
+                            a.bad("read_raised", "%s: %s: %s" % (what, type(e).__name__, str(e)[:150]), exc=type(e).__name__)
+                        continue
+                    except Exception as e:
+                        a.bad("read_raised", "%s: %s: %s" % (what, type(e).__name__, str(e)[:150]), exc=type(e).__name__)
+                        continue
+                    check_rows(a, what, out, rg_must[gi], rg_maybe[gi], table, cols, want_cols=cols, key=key)
+            # ... and to the row-group iterator
+            a.ctx = dict(sctx, cols="all", via="iter")
+            what = "%s v%d tiny=%s rgs=%r iter_row_groups(filters=%r, row_filter=True)" % (kind, ver, tiny, contents, filt)
+            try:
+                if not p.get("iter"):
+                    raise StopIteration
+                a.evals += 1
+                parts = list(pf.iter_row_groups(filters=filt, row_filter=True))
+                if parts:
+                    out = pd.concat(parts, ignore_index=True)
+                    check_rows(a, what, out, must, maybe, table, None, want_cols=allcols, kf=kf, key=key)
+                elif must:
+                    extra = {"why": WHY_NOT_IN} if kf is not None and kf([], 0) else {}
+                    a.bad("wrong_rows", "%s: nothing returned, rows %r qualify" % (what, must), **extra)
+            except StopIteration:
+                pass
+            except TypeError as e:
+                if not (kind == "cat" and "Unordered Categoricals" in str(e)):
+                    a.bad("read_raised", "%s: %s: %s" % (what, type(e).__name__, str(e)[:150]), exc=type(e).__name__)
+            except Exception as e:
+                a.bad("read_raised", "%s: %s: %s" % (what, type(e).__name__, str(e)[:150]), exc=type(e).__name__)
+            a.ctx = dict(sctx, via="count")
             try:
                 cnt = int(pf.count(filters=filt, row_filter=True))
                 if not (len(must) <= cnt <= len(must) + len(maybe)):
-                    a.ctx = {"shape": shape if len(groups) == 1 else "or", "via": "count",
-                             "ops": ",".join(sorted({c[1] for g in groups for c in g}))}
-                    a.bad("wrong_count", "%s rgs=%r filter=%r: count()=%d, %d rows qualify" % (kind, contents, filt, cnt, len(must)))
+                    extra = {"why": WHY_NOT_IN} if kf is not None and kf(None, cnt) else {}
+                    a.bad("wrong_count", "%s rgs=%r filter=%r: count()=%d, %d rows qualify" % (kind, contents, filt, cnt, len(must)), **extra)
+                elif n_all is not None and cnt != n_all:
+                    a.bad("count_differs", "%s rgs=%r filter=%r: count()=%d, to_pandas returns %d rows" % (kind, contents, filt, cnt, n_all))
             except TypeError as e:
                 if not (kind == "cat" and "Unordered Categoricals" in str(e)):
-                    a.ctx = {"via": "count"}
                     a.bad("read_raised", "count: %s" % e, exc="TypeError")
             except Exception as e:
-                a.ctx = {"via": "count"}
                 a.bad("read_raised", "count(filters=%r, row_filter=True): %s: %s" % (filt, type(e).__name__, str(e)[:100]), exc=type(e).__name__)
     return a.result()
+
+
+def _page_rows(pf, path, column):
+    """rows per data page of every chunk of `column` (layout facts for the coverage record)"""
+    from fastparquet.cencoding import ThriftObject
+    from fastparquet import encoding
+    out = []
+    with open(path, "rb") as f:
+        for rg in pf.row_groups:
+            for col in rg.columns:
+                cmd = col.meta_data
+                if ".".join(cmd.path_in_schema) != column:
+                    continue
+                off = min(cmd.dictionary_page_offset or cmd.data_page_offset, cmd.data_page_offset)
+                f.seek(off)
+                buf = encoding.NumpyIO(f.read(cmd.total_compressed_size))
+                ns = []
+                while buf.tell() < cmd.total_compressed_size:
+                    ph = ThriftObject.from_buffer(buf, "PageHeader")
+                    if ph.type == 0:
+                        ns.append(ph.data_page_header.num_values)
+                    elif ph.type == 3:
+                        ns.append(ph.data_page_header_v2.num_values)
+                    buf.seek(ph.compressed_page_size, 1)
+                out.append(ns)
+    return out
+
+
+M_LAYOUTS = {"3+3": (6, [0, 3], 1), "2+4": (6, [0, 2], 1), "6p2": (6, [0], 2), "6p3": (6, [0], 3), "12cat": (12, [0], None)}
 
 
 def run_M(p):
@@ -199,29 +408,51 @@ def run_M(p):
     from mc.scratch import scratch
     from mc import oracles as O, wr
     ver, tiny, payload = p["v"], p["tiny"], p["payload"]
-    a = Acc({"m": "M", "v": ver, "tiny": tiny, "payload": payload})
-    n = 6
+    lay = p.get("layout", "3+3")
+    a = Acc({"m": "M", "v": ver, "tiny": tiny, "payload": payload, "layout": lay})
+    n, offs, rpp = M_LAYOUTS[lay]
     rid = list(range(n))
     if payload == "int":
         pay = pd.Series([10, 11, 12, 13, 14, 15], dtype="int64")
     elif payload == "str_null":
         pay = pd.Series(["a", None, "c", None, "e", "f"], dtype=object)
-    else:
+    elif n == 6:
         pay = pd.Series(pd.Categorical(["u", "v", None, "u", "w", "v"]))
-    df = pd.DataFrame({"rid": rid, "pay": pay, "f": [0.5, None, 2.5, 3.5, None, 5.5]})
+    else:
+        pay = pd.Series(pd.Categorical(["u", "v", None, "u", "w", "v", "w", None, "u", "v", None, "w"]))
+    df = pd.DataFrame({"rid": rid, "pay": pay, "f": [0.5, None, 2.5, 3.5, None, 5.5] * (n // 6)})
     d = scratch()
     path = os.path.join(d, "t.parquet")
-    with wr.PageCfg(ver, wr.tiny_page_size(df, 1) if tiny else None):
-        fastparquet.write(path, df, row_group_offsets=[0, 3], write_index=False)
+    size = None
+    if lay == "12cat":
+        size = 9        # int64 / float64: one row per page; the one-byte codes of the categorical: 8 + 4 rows
+    elif tiny:
+        size = wr.tiny_page_size(df, rpp)
+    with wr.PageCfg(ver, size):
+        fastparquet.write(path, df, row_group_offsets=offs, write_index=False)
     pf = fastparquet.ParquetFile(path)
+    layout = _page_rows(pf, path, "pay")
+    if lay == "12cat" and not (len(layout) == 1 and len(layout[0]) >= 2 and min(layout[0]) >= 2):
+        a.bad("harness_layout", "the categorical column was meant to span two data pages of several rows, the file has %r" % layout)
+    if lay in ("6p2", "6p3") and _page_rows(pf, path, "rid") != [[rpp] * (6 // rpp)]:
+        a.bad("harness_layout", "rid was meant to have %d rows per page, the file has %r" % (rpp, _page_rows(pf, path, "rid")))
     table = {c: dict(zip(rid, O.series_to_list(df[c]))) for c in df.columns}
-    for bits in itertools.product([False, True], repeat=n):
+    allcols = [str(c) for c in df.columns]
+    colsets = (None,) if lay == "12cat" else (None, ["pay"], ["rid", "f"])
+    refs = {repr(cols): ref_dtypes(pf.to_pandas(columns=cols)) for cols in colsets}
+    bounds = list(offs) + [n]
+    free = n if lay != "12cat" else n - 2
+    for tailbits in itertools.product([False, True], repeat=free):
+        bits = tailbits if lay != "12cat" else (bool(p["part"] & 2), bool(p["part"] & 1)) + tailbits
         mask = np.array(bits, dtype=bool)
         must = [r for r, b in zip(rid, bits) if b]
-        for cols in (None, ["pay"], ["rid", "f"]):
-            a.ctx = {"cols": "all" if cols is None else "+".join(cols),
-                     "rg_pattern": "%d%d" % (min(sum(bits[:3]), 2) if sum(bits[:3]) < 3 else 3, min(sum(bits[3:]), 2) if sum(bits[3:]) < 3 else 3)}
-            what = "mask=%s v%d tiny=%s payload=%s cols=%r" % ("".join("1" if b else "0" for b in bits), ver, tiny, payload, cols)
+        pat = ""
+        for lo, hi in zip(bounds[:-1], bounds[1:]):
+            k = sum(bits[lo:hi])
+            pat += "0" if k == 0 else "F" if k == hi - lo else "1" if k == 1 else "2"
+        for cols in colsets:
+            a.ctx = {"cols": "all" if cols is None else "+".join(cols), "rg_pattern": pat}
+            what = "mask=%s v%d tiny=%s layout=%s payload=%s cols=%r" % ("".join("1" if b else "0" for b in bits), ver, tiny, lay, payload, cols)
             a.evals += 1
             if must:
                 a.nontriv += 1
@@ -230,14 +461,124 @@ def run_M(p):
             except Exception as e:
                 a.bad("read_raised", "%s: %s: %s" % (what, type(e).__name__, str(e)[:150]), exc=type(e).__name__)
                 continue
-            check_rows(a, what, out, must, [], table, cols)
-    for wrong in (n - 1, n + 1, 0):
-        a.ctx = {"wrong_len": wrong}
-        try:
-            pf.to_pandas(row_filter=np.ones(wrong, dtype=bool))
-            a.bad("wrong_length_accepted", "a mask of length %d was accepted for %d rows" % (wrong, n))
-        except Exception:
-            pass
+            check_rows(a, what, out, must, [], table, cols, want_cols=cols or allcols, ref=refs[repr(cols)])
+    if lay != "12cat" or p["part"] == 0:
+        for wrong in (n - 1, n + 1, 0):
+            a.ctx = {"wrong_len": wrong - n if wrong else "empty"}
+            try:
+                pf.to_pandas(row_filter=np.ones(wrong, dtype=bool))
+                a.bad("wrong_length_accepted", "a mask of length %d was accepted for %d rows" % (wrong, n))
+            except Exception:
+                pass
+    res = a.result()
+    res["counts"]["max_pages_per_chunk"] = max(len(x) for x in layout)
+    return res
+
+
+def run_I(p):
+    """frames with an index: the row labels must follow the selected rows"""
+    import os
+    import numpy as np
+    import pandas as pd
+    import fastparquet
+    from mc.scratch import scratch
+    from mc import oracles as O, wr
+    from mc.props import C05
+    ix, ver, tiny = p["index"], p["v"], p["tiny"]
+    a = Acc({"m": "I", "index": ix, "v": ver, "tiny": tiny})
+    n = 6
+    rid = list(range(n))
+    df = pd.DataFrame({"x": pd.array([1, None, 3, 3, 2, 1], dtype="Int64"), "rid": rid,
+                       "pay": ["a", None, "c", None, "e", "f"]})
+    labels = {"text": ["ka", "kb", "kc", "kd", "ke", "kf"], "range": [5, 10, 15, 20, 25, 30],
+              "multi": [("ka", 7), ("kb", 7), ("kc", 8), ("kd", 8), ("ke", 9), ("kf", 9)]}[ix]
+    if ix == "text":
+        df.index = pd.Index(labels, name="k", dtype=object)
+    elif ix == "range":
+        df.index = pd.RangeIndex(5, 35, 5)
+    else:
+        df.index = pd.MultiIndex.from_tuples(labels, names=["k", "l"])
+    d = scratch()
+    path = os.path.join(d, "t.parquet")
+    with wr.PageCfg(ver, wr.tiny_page_size(df, 1) if tiny else None):
+        fastparquet.write(path, df, row_group_offsets=[0, 2], stats=True)
+    pf = fastparquet.ParquetFile(path)
+    lab = dict(zip(rid, labels))
+    table = {c: dict(zip(rid, O.series_to_list(df[c]))) for c in df.columns}
+    full = pf.to_pandas()
+    got_full = [tuple(v) if isinstance(v, tuple) else v for v in full.index.tolist()]
+    if got_full != labels:
+        a.bad("harness_layout", "the unfiltered read gives row labels %r, written %r" % (got_full, labels))
+        return a.result()
+
+    def look(what, out, must, maybe):
+        data = out.reset_index(drop=True)
+        before = len(a.sigs)
+        check_rows(a, what, data, must, maybe, table, None, plain_index=False)
+        if len(a.sigs) != before or "rid" not in out.columns:
+            return
+        got = O.series_to_list(out["rid"])
+        have = [tuple(v) if isinstance(v, tuple) else v for v in out.index.tolist()]
+        want = [lab[r] for r in got]
+        if have != want:
+            a.bad("index_labels", "%s: rows %r come back labelled %r, they were written as %r" % (what, got, have, want))
+        elif list(out.index.names) != list(full.index.names):
+            a.bad("index_names", "%s: index names %r, the unfiltered read gives %r" % (what, list(out.index.names), list(full.index.names)))
+
+    for bits in itertools.product([False, True], repeat=n):
+        mask = np.array(bits, dtype=bool)
+        must = [r for r, b in zip(rid, bits) if b]
+        for cols in (None, ["rid"]):
+            a.ctx = {"by": "mask", "cols": "all" if cols is None else "+".join(cols)}
+            what = "index=%s v%d tiny=%s mask=%s cols=%r" % (ix, ver, tiny, "".join("1" if b else "0" for b in bits), cols)
+            a.evals += 1
+            if must:
+                a.nontriv += 1
+            try:
+                out = pf.to_pandas(row_filter=mask, columns=cols)
+            except Exception as e:
+                a.bad("read_raised", "%s: %s: %s" % (what, type(e).__name__, str(e)[:150]), exc=type(e).__name__)
+                continue
+            look(what, out, must, [])
+    progs = C05.filter_programs("Int64", True)
+    if ix in ("text", "multi"):
+        progs = progs + [("flat", [("k", ">=", "kc")]), ("flat", [("k", "in", ["ka", "ke"]), ("x", "<", 3)]),
+                         ("nested", [[("k", "==", "kb")], [("x", "==", 3), ("k", "!=", "kc")]]),
+                         ("nested", [[("k", "<", "kc")], [("k", ">", "kd")]])]
+    cells = O.series_to_list(df["x"])
+    rg_of = {r: (0 if r < 2 else 1) for r in rid}
+    rg_x = {0: cells[:2], 1: cells[2:]}
+    for shape, filt in progs:
+        groups = [filt] if shape == "flat" else filt
+        must, maybe = [], []
+        for r in rid:
+            mm, dc = C05.row_matches(groups, {"x": cells[r], "k": labels[r][0] if ix == "multi" else labels[r]})
+            if mm:
+                must.append(r)
+            elif dc:
+                maybe.append(r)
+        rg_must = {gi: [r for r in must if rg_of[r] == gi] for gi in rg_x}
+        rg_maybe = {gi: [r for r in maybe if rg_of[r] == gi] for gi in rg_x}
+        kf = not_in_loss(groups, rg_x, rg_must, rg_maybe)
+        for cols in (None, ["rid"]):
+            a.ctx = {"by": "filter", "cols": "all" if cols is None else "+".join(cols),
+                     "ops": ",".join(sorted({c[1] for g in groups for c in g}))}
+            if any(c[0] == "k" for g in groups for c in g):
+                a.ctx["on_index"] = True
+            what = "index=%s v%d tiny=%s filter=%r cols=%r" % (ix, ver, tiny, filt, cols)
+            a.evals += 1
+            if must:
+                a.nontriv += 1
+            try:
+                out = pf.to_pandas(filters=filt, row_filter=True, columns=cols)
+            except Exception as e:
+                if ix == "multi" and isinstance(e, TypeError) and "Unordered Categoricals" in str(e):
+                    continue      # the levels of a multi-index are read as categoricals: refusing to order them is valid
+                a.bad("read_raised", "%s: %s: %s" % (what, type(e).__name__, str(e)[:150]), exc=type(e).__name__)
+                continue
+            if kf is not None and kf(O.series_to_list(out["rid"]) if "rid" in out.columns else None, len(out)):
+                continue          # the known 'not in' pruning loss is reported by the F cells
+            look(what, out, must, maybe)
     return a.result()
 
 
@@ -250,43 +591,81 @@ def run_P(p):
     from mc import oracles as O
     from mc.props import C05
     pk = p["pkind"]
-    a = Acc({"m": "P", "pkind": pk})
+    scheme, levels = p.get("scheme", "hive"), p.get("levels", 1)
+    a = Acc({"m": "P", "pkind": pk, "scheme": scheme, "levels": levels})
     pv = {"int": [1, 2], "str": ["a", "b"]}[pk]
     df = pd.DataFrame({"p": [pv[0], pv[0], pv[1], pv[1], pv[0], pv[0], pv[1], pv[1]],
                        "x": [1, 2, 3, 4, 5, 6, 7, 8], "rid": list(range(8))})
+    part = ["p"]
+    if levels == 2:
+        df["q"] = ["u", "w", "u", "w", "u", "w", "u", "w"]
+        df["x"] = [1, 2, 3, None, 5, 6, 7, 8]
+        part = ["p", "q"]
     d = scratch()
     path = os.path.join(d, "ds")
-    fastparquet.write(path, df, file_scheme="hive", partition_on=["p"], row_group_offsets=[0, 4], write_index=False, stats=True)
+    fastparquet.write(path, df, file_scheme=scheme, partition_on=part, row_group_offsets=[0, 4], write_index=False, stats=True)
     pf = fastparquet.ParquetFile(path)
+    pc, qc = ("p", "q") if scheme == "hive" else ("dir0", "dir1")
     full = pf.to_pandas()
     order = O.series_to_list(full["rid"])            # dataset order (partitioned datasets reorder rows)
     table = {c: dict(zip(order, O.series_to_list(full[c]))) for c in full.columns}
+    if sorted(order) != list(range(8)) or any(table[pc][r] != df["p"][r] for r in order):
+        a.bad("harness_layout", "the unfiltered read of the partitioned dataset does not give the written rows back")
+        return a.result()
     progs = []
     for v in pv:
-        progs.append([[("p", "==", v)]])
-        progs.append([[("p", "!=", v)]])
-        progs.append([[("p", "in", [v])]])
+        progs.append([[(pc, "==", v)]])
+        progs.append([[(pc, "!=", v)]])
+        progs.append([[(pc, "in", [v])]])
+        progs.append([[(pc, "not in", [v])]])
+        progs.append([[(pc, "<", v)]])
+        progs.append([[(pc, ">=", v)]])
+        progs.append([[(pc, ">", v), ("x", "<=", 7)]])
+        progs.append([[(pc, "not in", [v]), ("x", ">", 3)], [("x", "==", 1)]])
         for xo, xv in (("<=", 2), (">=", 7), ("==", 5), (">", 2)):
-            progs.append([[("p", "==", v), ("x", xo, xv)]])
-            progs.append([[("p", "==", v), ("x", xo, xv)], [("x", ">=", 7)]])
-            progs.append([[("p", "==", v)], [("p", "!=", v), ("x", xo, xv)]])
+            progs.append([[(pc, "==", v), ("x", xo, xv)]])
+            progs.append([[(pc, "==", v), ("x", xo, xv)], [("x", ">=", 7)]])
+            progs.append([[(pc, "==", v)], [(pc, "!=", v), ("x", xo, xv)]])
+        if levels == 2:
+            for w in ("u", "w"):
+                progs.append([[(qc, "==", w)]])
+                progs.append([[(pc, "==", v), (qc, "==", w)]])
+                progs.append([[(pc, "==", v), (qc, "!=", w)], [("x", "==", 1)]])
+                progs.append([[(pc, "==", v)], [(qc, "<=", w), ("x", ">", 4)]])
+                progs.append([[(qc, "in", [w]), ("x", "<", 6)], [(pc, "not in", [v]), (qc, ">", w)]])
+    variants = []
     for groups in progs:
+        variants.append((groups, groups, "or" if len(groups) > 1 else "and"))
+        if len(groups) == 1:
+            variants.append((groups, groups[0], "flat"))
+    for groups, filt, shape in variants:
         must = []
         for r in order:
-            mm, dc = C05.row_matches(groups, {"p": table["p"][r], "x": table["x"][r]})
+            row = {pc: table[pc][r], "x": table["x"][r]}
+            if levels == 2:
+                row[qc] = table[qc][r]
+            mm, dc = C05.row_matches(groups, row)
             if mm:
                 must.append(r)
-        for cols in (None, ["rid", "x"], ["rid", "p"]):
-            a.ctx = {"shape": "or" if len(groups) > 1 else "and", "cols": "all" if cols is None else "+".join(cols),
-                     "mixed": any(len({c[0] for c in g}) > 1 for g in groups)}
-            what = "hive %s filter=%r cols=%r" % (pk, groups, cols)
+        sctx = {"shape": shape, "mixed": any(len({c[0] for c in g}) > 1 for g in groups),
+                "ops": ",".join(sorted({c[1] for g in groups for c in g}))}
+        n_all = None
+        for cols in (None, ["rid", "x"], ["rid", pc]):
+            a.ctx = dict(sctx, cols="all" if cols is None else "+".join(cols))
+            what = "%s %s levels=%d filter=%r cols=%r" % (scheme, pk, levels, filt, cols)
             a.evals += 1
             if must:
                 a.nontriv += 1
             try:
-                out = pf.to_pandas(filters=groups, row_filter=True, columns=cols)
+                out = pf.to_pandas(filters=filt, row_filter=True, columns=cols)
             except Exception as e:
                 a.bad("read_raised", "%s: %s: %s" % (what, type(e).__name__, str(e)[:150]), exc=type(e).__name__)
+                continue
+            if cols is None:
+                n_all = len(out)
+            want_cols = cols or [str(c) for c in full.columns]
+            if [str(c) for c in out.columns] != want_cols:
+                a.bad("wrong_columns", "%s: columns %r returned, %r requested" % (what, [str(c) for c in out.columns], want_cols))
                 continue
             got = O.series_to_list(out["rid"])
             if got != must:
@@ -297,13 +676,26 @@ def run_P(p):
                 exp = [table[col][r] for r in got]
                 if O.first_diff(vals, exp) is not None:
                     a.bad("misaligned", "%s: column %s is %r, rows hold %r" % (what, col, vals, exp), col=col)
+        a.ctx = dict(sctx, via="count")
+        try:
+            cnt = int(pf.count(filters=filt, row_filter=True))
+            if cnt != len(must):
+                a.bad("wrong_count", "%s %s levels=%d filter=%r: count()=%d, %d rows qualify" % (scheme, pk, levels, filt, cnt, len(must)))
+            elif n_all is not None and cnt != n_all:
+                a.bad("count_differs", "%s %s filter=%r: count()=%d, to_pandas returns %d rows" % (scheme, pk, filt, cnt, n_all))
+        except Exception as e:
+            a.bad("read_raised", "count(filters=%r, row_filter=True): %s: %s" % (filt, type(e).__name__, str(e)[:100]), exc=type(e).__name__)
     return a.result()
 
 
-LEVEL_TEXT = ("Bounded-exhaustive lattice: filter-column kinds x v1/v2 x single/multi-page chunks x all 2-row-group datasets "
-              "over six row-group contents x ~90 filter programs x four output column sets, plus all 64 boolean masks of "
-              "a 6-row two-row-group multi-page frame x payload kinds, plus partition-column conditions; every result is "
-              "compared row by row (identity, order, alignment of every column by row id) with a pure-Python evaluation.")
-LEVEL_NOTE = ("Trusted: pure-Python predicate evaluation; three rows per row group; NULL semantics of != / not in left open "
-              "(both outcomes accepted).")
+LEVEL_TEXT = ("Bounded-exhaustive lattice: filter-column kinds x v1/v2 x single/multi-page chunks x 2-row-group datasets "
+              "over row-group contents of 3 and 2 rows (equal and unequal sizes, both orders) x ~100 filter programs (one "
+              "or two conditioned columns) x four output column sets, asked through to_pandas, count, the direct "
+              "row-group read and the row-group iterator; all boolean masks of 6-row frames in five row-group / page "
+              "layouts (pages of 1, 2, 3 and all rows) and of a 12-row frame with a two-page dictionary-encoded column; "
+              "frames with a text, range or two-level index; hive / drill datasets with one or two partition levels; "
+              "every result is compared row by row (identity, order, alignment of every column and of the index labels "
+              "by row id, column labels, dtypes, count) with a pure-Python evaluation.")
+LEVEL_NOTE = ("Trusted: pure-Python predicate evaluation; two row groups of 2-4 rows; NULL semantics of != / not in left "
+              "open (both outcomes accepted, but to_pandas and count must agree).")
 TECHNIQUE = "bounded exhaustive enumeration of datasets x filter programs / masks x output columns vs pure-Python evaluation"
